@@ -93,3 +93,85 @@ Proof.
   all: rewrite ?(vmem_of_cnt (VDiscB c) vo 0) by (rewrite J3, co_discb; reflexivity).
   all: try reflexivity.
 Qed.
+
+(* published events *)
+Lemma vcheck_pub cap vo bo ss p s ss' : sexec cap vo bo ss -> sstep cap ss (XB (Pub p s)) = Some ss' ->
+  vcheck (VPub p s) vo = [].
+Proof.
+  intros He Hs. pose proof (sstep_base _ _ _ _ Hs) as Hb. pose proof (sexec_exec _ _ _ _ He) as Hx.
+  destruct (proj_inv _ _ _ _ He) as [_ _ _ _ J5]. unfold vcheck. rewrite J5.
+  pose proof (ck_norepeat_ok _ _ _ _ _ Hx Hb) as K. cbn [ck_norepeat] in K.
+  assert (E : negb (cst_eqb s (lastpub p bo)) || cst_eqb s NotConnected = true).
+  { apply orb_true_iff in K. destruct K as [K|K]; [rewrite K; reflexivity|].
+    apply andb_prop in K as [K _]. rewrite K. apply orb_true_r. }
+  rewrite E. rewrite (vlive _ _ _ _ He); [reflexivity|].
+  intros Ex. destruct (glob_inv _ _ _ _ He) as [_ _ _ G4 _ _ _ _]. rewrite Ex in G4.
+  destruct (close_inv _ _ _ Hx) as [_ _ _ _ _ _ W7 _ _].
+  unfold step in Hb. destruct (loop (base ss)) eqn:El; try discriminate Hb.
+  assert (R : returned (close_pc (base ss)) = true) by (destruct (close_pc (base ss)); cbn in G4; try discriminate; reflexivity).
+  specialize (W7 R). discriminate.
+Qed.
+
+(* addConn returning, the AcceptStream loop starting *)
+Lemma started_connected cap vo bo ss c : sexec cap vo bo ss -> started (s_pc (sg ss c)) = true ->
+  vcnt (VConnE c) vo = 1.
+Proof.
+  intros He Hst. destruct (proj_inv _ _ _ _ He) as [_ J2 _ _ _]. rewrite J2.
+  pose proof (rel_all _ _ _ _ He c) as [R1 _ _ _ _ _]. pose proof (noskip_all _ _ _ _ He c) as N.
+  base_facts He c. rewrite co_conne. unfold rel_sa, noskip in *.
+  destruct (s_pc (sg ss c)); try discriminate Hst;
+    destruct (c_a (gc (base ss) c)); cbn in R1, N; rewrite ?andb_false_r in R1; try discriminate; reflexivity.
+Qed.
+
+Lemma vcheck_addret cap vo bo ss c ok ss' : sexec cap vo bo ss -> sstep cap ss (XS (SAddRet c ok)) = Some ss' ->
+  vcheck (VAddRet c ok) vo = [].
+Proof.
+  intros He Hs. destruct ok; inv_sstep Hs; unfold vcheck.
+  - apply andb_prop in Heqb0 as [Hst _]. rewrite (started_connected _ _ _ _ c He Hst). reflexivity.
+  - destruct (hist_all _ _ _ _ He c) as [_ _ _ _ _ _ _ H8]. rewrite Heqs in H8. specialize (H8 eq_refl).
+    destruct (glob_inv _ _ _ _ He) as [G1 G2 _ _ _ _ _ _]. rewrite G1 in H8.
+    rewrite (vmem_of_cnt VCloseCall vo 0) by (rewrite G2; destruct (x_pc ss); try discriminate; reflexivity).
+    destruct (proj_inv _ _ _ _ He) as [J1 _ _ _ _]. rewrite J1.
+    pose proof (rel_all _ _ _ _ He c) as [R1 _ _ _ _ _]. rewrite Heqs in R1. cbn in R1.
+    base_facts He c. rewrite co_connb. unfold proto_ok in P.
+    destruct (c_reg (gc (base ss) c)); try discriminate R1.
+    destruct (c_a (gc (base ss) c)); try (rewrite ?andb_false_r in P; discriminate P). reflexivity.
+Qed.
+
+Lemma vcheck_accept cap vo bo ss c ss' : sexec cap vo bo ss -> sstep cap ss (XS (SAccept c)) = Some ss' ->
+  vcheck (VAccept c) vo = [].
+Proof.
+  intros He Hs. inv_sstep Hs. unfold vcheck.
+  rewrite (vmem_of_cnt (VConnE c) vo 0); [reflexivity|]. apply (started_connected _ _ _ _ c He). rewrite Heqs. reflexivity.
+Qed.
+
+(* Swarm.Close returns *)
+Lemma vcheck_closeret cap vo bo ss ss' : sexec cap vo bo ss -> sstep cap ss (XS SCloseRet) = Some ss' ->
+  vcheck VCloseRet vo = [].
+Proof.
+  intros He Hs. inv_sstep Hs. unfold vcheck.
+  destruct (proj_inv _ _ _ _ He) as [J1 J2 J3 J4 _].
+  assert (Hw : xwaited (x_pc ss) = true) by (rewrite Heqx; reflexivity).
+  assert (A : forall c, c < nconns (base ss) ->
+            cnt (ConnB c) bo = 1 /\ cnt (ConnE c) bo = 1 /\ cnt (DiscB c) bo = 1 /\ cnt (DiscE c) bo = 1).
+  { intros c Hc. destruct (all_done _ _ _ _ c He Hw Hc) as [E1 E2]. eapply done_counts; eauto. }
+  assert (B : forall c, nconns (base ss) <= c ->
+            cnt (ConnB c) bo = 0 /\ cnt (ConnE c) bo = 0 /\ cnt (DiscB c) bo = 0 /\ cnt (DiscE c) bo = 0)
+    by (intros c Hc; eapply fresh_counts; eauto).
+  assert (E1 : vall vo (fun c => negb (vmem (VSeen c) vo || vmem (VConnB c) vo)
+                           || (Nat.eqb (vcnt (VConnE c) vo) 1 && Nat.eqb (vcnt (VDiscE c) vo) 1)) = true).
+  { unfold vall. apply forallb_forall. intros c _.
+    destruct (Nat.lt_ge_cases c (nconns (base ss))) as [Hc|Hc].
+    - destruct (A c Hc) as (_ & A2 & _ & A4). rewrite J2, J4, A2, A4. apply orb_true_r.
+    - destruct (B c Hc) as (B1 & _). rewrite (nvmem_of_cnt (VConnB c) vo) by (rewrite J1; exact B1).
+      destruct (vmem (VSeen c) vo) eqn:Es; [|reflexivity].
+      apply vmem_true in Es. destruct (hist_all _ _ _ _ He c) as [_ _ _ _ _ _ H7 _].
+      apply H7 in Es. apply (inserted_lt _ _ _ _ c He) in Es. lia. }
+  assert (E2 : vall vo (fun c => Nat.eqb (vcnt (VConnB c) vo) (vcnt (VConnE c) vo)
+                              && Nat.eqb (vcnt (VDiscB c) vo) (vcnt (VDiscE c) vo)) = true).
+  { unfold vall. apply forallb_forall. intros c _. rewrite J1, J2, J3, J4.
+    destruct (Nat.lt_ge_cases c (nconns (base ss))) as [Hc|Hc].
+    - destruct (A c Hc) as (-> & -> & -> & ->). reflexivity.
+    - destruct (B c Hc) as (-> & -> & -> & ->). reflexivity. }
+  rewrite E1, E2. reflexivity.
+Qed.
